@@ -113,6 +113,11 @@ def showBt (db : BlockTx.Db) (n : Nat) : String :=
 def parseEmit (s : String) : Option (Option Nat) :=
   if s == "" || s == "*" then some none else s.toNat?.map some
 
+def parsePartial (t : String) : Option (Nat × Nat) :=
+  match t.splitOn "." with
+  | [r, k] => do let r ← r.toNat?; let k ← k.toNat?; pure (r, k)
+  | _ => none
+
 def parseStep (tok : String) : Option BlockTx.Step :=
   if tok == "H" then some .cancelHead
   else if tok == "F" then some .crashFinal
@@ -123,6 +128,15 @@ def parseStep (tok : String) : Option BlockTx.Step :=
       let e ← parseEmit e
       let bs ← if bits == "-" then some [] else bits.toList.mapM fun c => if c == '1' then some true else if c == '0' then some false else none
       pure (if tok.startsWith "C" then .crash e bs else .writeFail e bs)
+    | _ => none
+  else if tok.startsWith "E" then
+    -- E<emit|*>:<bits>:<r.k,r.k,…|->
+    match (String.ofList (tok.toList.drop 1)).splitOn ":" with
+    | [e, bits, ps] => do
+      let e ← parseEmit e
+      let bs ← if bits == "-" then some [] else bits.toList.mapM fun c => if c == '1' then some true else if c == '0' then some false else none
+      let parts ← if ps == "-" then some [] else (ps.splitOn ",").mapM parsePartial
+      pure (.ingestError e bs parts)
     | _ => none
   else none
 
